@@ -99,6 +99,10 @@ structure Cfg where
   junk : Nat → Nat → Rat
   /-- sparse model: the reward is copied only if `checkDifferentSmall(old, new)`, i.e. `|old-new| > tol` -/
   rewTol : Option Rat
+  /-- `SparseMaximumLikelihoodModel::sync(s,a)` over an experience without Eigen tables (the `else` branch of
+      `if constexpr (IsExperienceEigen<E>)`): only the cells with `visits > 0` are written, the others keep their value;
+      `true` = that branch as written -/
+  sparseGeneric : Bool := false
 
 /-- reward copy rule of `sync`: dense `rewards_(s,a) = exp.getReward(s,a)`;
     sparse `if (checkDifferentSmall(rewards_, new)) rewards_ = new` -/
@@ -136,11 +140,20 @@ inductive LOp where
 def Pair.init (w dfl idx : Nat) : Pair :=
   { dfl := dfl, idx := idx, cell := Cell.init, cnt := List.replicate w 0, row := unit w dfl, rew := 0 }
 
+/-- the element-wise loop of the sparse model over a generic experience:
+    `if (visits > 0) T(s,a,s1) = visits * (1/visitSum)` — cells with no visits are left alone -/
+def writeVisited (n : Nat) : List Rat → List Nat → List Rat
+  | x :: xs, c :: cs => (if c > 0 then (c : Rat) / (n : Rat) else x) :: writeVisited n xs cs
+  | _, _ => []
+
 /-- `MaximumLikelihoodModel::sync(s,a)` / `CooperativeMaximumLikelihoodModel::syncRow` -/
 def Pair.fullSync (cfg : Cfg) (p : Pair) : Pair :=
   if p.cell.n = 0 then p
   else { p with rew := copyRew cfg p.rew p.cell.mean,
-                row := p.cnt.map (fun (c : Nat) => (c : Rat) / (p.cell.n : Rat)) }
+                row := if cfg.sparseGeneric then
+                         -- "Clear beginning's identity matrix" only when this is the very first visit
+                         writeVisited p.cell.n (if p.cell.n = 1 then setQ p.row p.dfl 0 else p.row) p.cnt
+                       else p.cnt.map (fun (c : Nat) => (c : Rat) / (p.cell.n : Rat)) }
 
 /-- `MaximumLikelihoodModel::sync(s,a,s1)` -/
 def Pair.incSync (cfg : Cfg) (s1 : Nat) (p : Pair) : Pair :=
